@@ -144,6 +144,12 @@ class SequenceOfEncoder(encoder.SequenceOfEncoder):
     def encodeValue(self, value, asn1Spec, encodeFun, **options):
 
         if options.get('ifNotEmpty', False) and not len(value):
+            # an empty value is left out, not one that must not be empty
+            if asn1Spec is None:
+                inconsistency = value.isInconsistent
+                if inconsistency:
+                    raise inconsistency
+
             return null, True, True
 
         chunks = self._encodeComponents(
